@@ -165,6 +165,8 @@ impl Slave {
         if self.wd_ticks.is_some() {
             s2 |= 0x08;
         }
+        s1 |= self.cfg.odd_status.0;
+        s2 |= self.cfg.odd_status.1;
         let mut pdu = vec![s1, s2, 0, self.master.unwrap_or(255), (self.cfg.ident >> 8) as u8, self.cfg.ident as u8];
         if !self.cfg.ext_diag.is_empty() {
             pdu[0] |= 0x08;
